@@ -45,6 +45,13 @@ def applySettingsFirst (o : Dir α) (ord : Nat → List Nat) (kvs : List (Nat ×
   | some v => o2.setInitWin (ord 0) v
   | none => (o2, [])
 
+/-- the fix pattern for F51: the frame's FINAL values are collected first — every identifier once,
+    with the value of its last occurrence (`lastOcc`) — and only then are the direction and its
+    queues touched: one `updateInitialWindowSize`, hence one scan of the queues, per frame, under the
+    value that is in force once the frame is processed (RFC 7540 §6.5.3) -/
+def applySettingsLastOnly (o : Dir α) (ord : Nat → List Nat) (kvs : List (Nat × Nat)) : Dir α × List (QFrame α) :=
+  applySettings o ord 0 (lastOcc kvs)
+
 /-- the fields a SETTINGS frame controls -/
 def SameCfg (d d' : Dir α) : Prop :=
   d'.initWin = d.initWin ∧ d'.maxFrame = d.maxFrame ∧ d'.tableSize = d.tableSize
@@ -133,6 +140,31 @@ theorem lastOfInt_indep (id : Nat) (x y : Int) (t : List (Nat × Nat)) (h : t.an
     · simp only [hi, if_false]
       apply ih
       simpa [hi] using h
+
+theorem lastOfInt_absent (id : Nat) (x : Int) (t : List (Nat × Nat)) (h : id ∉ t.map (·.1)) :
+    lastOfInt id x t = x := by
+  induction t generalizing x with
+  | nil => rfl
+  | cons kv rest ih =>
+    obtain ⟨i, v⟩ := kv
+    simp only [List.map_cons, List.mem_cons, not_or] at h
+    have hi : ¬ i = id := fun e => h.1 e.symm
+    simp only [lastOfInt, hi, if_false]
+    exact ih x h.2
+
+/-- a frame that names no identifier twice is its own last-occurrence dedup -/
+theorem lastOcc_of_nodup (kvs : List (Nat × Nat)) (h : (kvs.map (·.1)).Nodup) : lastOcc kvs = kvs := by
+  induction kvs with
+  | nil => rfl
+  | cons kv rest ih =>
+    obtain ⟨i, v⟩ := kv
+    simp only [List.map_cons, List.nodup_cons] at h
+    have hany : rest.any (fun kv => kv.1 == i) = false := by
+      apply Bool.eq_false_iff.mpr
+      intro ht
+      obtain ⟨kv, hkv, hi⟩ := List.any_eq_true.mp ht
+      exact h.1 (List.mem_map.mpr ⟨kv, hkv, by simpa using hi⟩)
+    simp only [lastOcc, hany, Bool.false_eq_true, if_false, ih h.2]
 
 /-- the last-occurrence dedup puts the same values in force -/
 theorem lastOf_lastOcc (id : Nat) (d : Nat) (kvs : List (Nat × Nat)) : lastOf id d (lastOcc kvs) = lastOf id d kvs := by
